@@ -97,3 +97,23 @@ def fresh_nonce_rule(ctx, rid):
             after = pb.reachable_after(u.bb, removed_nodes=reads)
             ctx.require(rid, c.bb not in after, c.where(), "endpoint.nonce is re-read after each response's update_nonce before the next JWS is built (no replay of a used nonce)",
                         [POST, "nonce-read-hoisted"])
+
+
+def nonce_update_rule(ctx, rid):
+    """once a response arrived, update_nonce(endpoint, response) runs before the status is examined, before any return and before
+    the next transmission — whatever the status: a refused request has consumed its nonce too, and the server's replacement must
+    reach the shared endpoint before anybody else signs with it"""
+    from ..mir import try_edges
+    from ..util import where
+    prog = ctx.prog
+    pb, sends, builder, upd = post_structure(prog)
+    for s_ in sends:
+        ok_e = [(t["bb"], tg) for t in try_edges(pb, [s_.dest["l"]]) if not t["adt"].endswith("Poll") for tg in t["ok"]]
+        ctx.require(rid, bool(ok_e), s_.where(), "the result of send() is tested", [POST, "send-untested"])
+        for (sb, tg) in ok_e:
+            r = pb.reachable([tg], removed_nodes=[u.bb for u in upd])
+            exits = set(pb.return_blocks()) | {s_.bb} | {c.bb for c in pb.calls_to("acmed::http::check_status")}
+            hit = sorted(exits & r)
+            ctx.require(rid, not hit, where(pb, hit[0]) if hit else s_.where(),
+                        "once a response arrived, update_nonce(endpoint, &response) runs before the status is examined, before any return and before the next transmission",
+                        [POST, "response-without-nonce-update"])
